@@ -81,7 +81,8 @@ func (p *ProofU) checkStructure(pk *gabikeys.PublicKey) bool {
 		return false
 	}
 	for i, response := range p.MUserResponses {
-		if i < 0 || i >= len(pk.R) || response == nil {
+		// index 0 is the secret key, whose only response is SResponse
+		if i <= 0 || i >= len(pk.R) || response == nil {
 			return false
 		}
 	}
